@@ -105,6 +105,7 @@ structure Good (text : List UInt8) (s : St) : Prop where
   le : s.off ≤ text.length
   wf : ∀ t ∈ s.toks, t.wf
   pos : ∀ t ∈ s.toks, 1 ≤ t.bytes.length
+  canon : ∀ t ∈ s.toks, t.invalid = false → t.canon
 
 theorem Good.consumed {text : List UInt8} {s s' : St} {c : List Tok} (hG : Good text s) (hc : Consumed s c s') :
     Good text s' ∧ slice text s.off s'.off = flat c := by
@@ -114,7 +115,8 @@ theorem Good.consumed {text : List UInt8} {s s' : St} {c : List Tok} (hG : Good 
   have hl : (text.drop s.off).length = wsum c + wsum s'.toks := by rw [hd]; simp
   simp only [List.length_drop] at hl
   refine ⟨⟨?_, by have := hG.le; omega, fun t ht => hG.wf t (by rw [h1]; exact List.mem_append_right _ ht),
-    fun t ht => hG.pos t (by rw [h1]; exact List.mem_append_right _ ht)⟩, ?_⟩
+    fun t ht => hG.pos t (by rw [h1]; exact List.mem_append_right _ ht),
+    fun t ht => hG.canon t (by rw [h1]; exact List.mem_append_right _ ht)⟩, ?_⟩
   · have : text.drop s'.off = (text.drop s.off).drop (wsum c) := by rw [List.drop_drop, h2]
     rw [this, hd]
     simp
@@ -485,7 +487,7 @@ theorem interleave_cover (text : List UInt8) (pos : Nat) (rs : List Range)
     simp
 
 theorem good_start (text : List UInt8) : Good text ⟨0, decodeAll text⟩ :=
-  ⟨by simp [flat_decodeAll], Nat.zero_le _, decodeAll_wf text, decodeAll_width_pos text⟩
+  ⟨by simp [flat_decodeAll], Nat.zero_le _, decodeAll_wf text, decodeAll_width_pos text, decodeAll_canon text⟩
 
 theorem start_ok {toks : List Tok} {u : Unit} {s : St} (h : start toks = .ok u s) : s = ⟨0, toks⟩ := by
   unfold start at h
